@@ -2,5 +2,7 @@ CONSTANTS
   MaxN = 2
   MaxDeps = 2
   Classes = {"ok", "Transport", "ErrorsNoData"}
+  MaxFaults = 2
+  Ents = {1, 2}
 SPECIFICATION BrokenSpec
 INVARIANTS Independent
